@@ -84,6 +84,9 @@ pub struct HA {
     pub seen_metric_calls: u32,
     pub seen_history_len: usize,
     pub seen_prev_length: usize,
+    /// the value the attributes had when optimise last ran (an attribute update that comes with
+    /// an observation is applied before the observation is stored and optimised)
+    pub seen_val: i64,
     /// merging *from* a track with this flag fails
     pub poison: bool,
     pub ctl: Arc<Ctl>,
@@ -91,10 +94,10 @@ pub struct HA {
 
 impl HA {
     pub fn new(ctl: Arc<Ctl>) -> Self {
-        HA { val: 0, group: 0, updates: 0, merges: 0, optimized: 0, seen_metric_calls: 0, seen_history_len: 0, seen_prev_length: 0, poison: false, ctl }
+        HA { val: 0, group: 0, updates: 0, merges: 0, optimized: 0, seen_metric_calls: 0, seen_history_len: 0, seen_prev_length: 0, seen_val: 0, poison: false, ctl }
     }
-    pub fn key(&self) -> (i64, u8, u32, u32, u32, u32, usize, usize, bool) {
-        (self.val, self.group, self.updates, self.merges, self.optimized, self.seen_metric_calls, self.seen_history_len, self.seen_prev_length, self.poison)
+    pub fn key(&self) -> (i64, u8, u32, u32, u32, u32, usize, usize, bool, i64) {
+        (self.val, self.group, self.updates, self.merges, self.optimized, self.seen_metric_calls, self.seen_history_len, self.seen_prev_length, self.poison, self.seen_val)
     }
     /// status from the value and from the observations collected so far: a track whose value
     /// says Ready is still Pending while it has no observation at all
@@ -283,6 +286,7 @@ impl ObservationMetric<HA, HO> for HM {
         attrs.seen_metric_calls = self.calls;
         attrs.seen_history_len = history.len();
         attrs.seen_prev_length = prev_length;
+        attrs.seen_val = attrs.val;
         self.calls += 1;
         attrs.optimized += 1;
         obs.sort_by_key(|o| std::cmp::Reverse(o.attr().as_ref().map(|x| x.0).unwrap_or(i32::MIN)));
@@ -340,7 +344,7 @@ pub type ObsKey = (Option<i32>, Option<i32>);
 #[derive(Clone, Debug, PartialEq, Serialize)]
 pub struct Snap {
     pub id: u64,
-    pub attrs: (i64, u8, u32, u32, u32, u32, usize, usize, bool),
+    pub attrs: (i64, u8, u32, u32, u32, u32, usize, usize, bool, i64),
     pub obs: BTreeMap<u64, Vec<ObsKey>>,
     pub history: Vec<u64>,
     /// metric state, probed through a follow-up optimise call on a clone
